@@ -151,6 +151,22 @@ func faultProfile() chain.Profile {
 	return p
 }
 
+// poorProfile: providers run out of money: renewal top-ups and hand-overs are partly taken as recorded debt,
+// which is repaid from released collateral and claims.
+func poorProfile() chain.Profile {
+	p := payProfile()
+	p.Name = "poor"
+	p.Nodes = []string{"a01", "a02", "a03", "a04"}
+	p.MaxData = 3
+	p.Weights = map[string]int{"Blocks": 16, "StoreNew": 8, "Complete": 30, "Renew": 16, "Migrate": 8, "Claim": 6, "Terminate": 3,
+		"Drain": 8, "Refill": 4, "StoreUpdate": 3}
+	p.Sizes = []int64{5000, 10000}
+	p.Durs = []int64{3600, 7200, 20000}
+	p.Timeouts = []int64{20, 1800}
+	p.Replicas = []int64{1, 2}
+	return p
+}
+
 // scarceProfile: few providers, high replica counts, short timeouts and mostly silent providers:
 // the timeout machinery re-assigns, partially re-assigns, gives up and refunds.
 func scarceProfile() chain.Profile {
@@ -205,6 +221,8 @@ func profileByName(n string) chain.Profile {
 		return versionProfile()
 	case "fault":
 		return faultProfile()
+	case "poor":
+		return poorProfile()
 	case "did":
 		p := payProfile()
 		p.Name = "did"
